@@ -554,3 +554,35 @@ Proof.
   - cbn. unfold nt_ok. cbn. repeat split; try (right; lia); auto.
   - reflexivity.
 Qed.
+
+(* C05 at history level for every list: the representation invariant (with tight packing)
+   holds after every valid history in which erase with a tail only occurs on trivially
+   relocatable lists *)
+Theorem rep_every_history_nt : forall L cap budget fixed aid junk bid tbid h,
+  wf_plist L = true -> 0 <= cap -> Forall (fun c => 0 <= c) fixed ->
+  let v0 := fst (mkvec L cap budget fixed aid junk bid tbid) in
+  let s0 := {| s_cap := cap; s_elems := [] |} in
+  shist_valid L (fixed_counts L fixed) s0 h -> nt_hist_ok L s0 h ->
+  Rep L (vrun L junk v0 h) (s_elems (srun s0 h)).
+Proof.
+  intros L cap budget fixed aid junk bid tbid h Hwf Hcap Hfx. cbv zeta. intros Hv Hn.
+  assert (Hst : has_varying L = false -> stride_ok L (fixed_counts L fixed) (snd (esize L fixed))).
+  { intros Hnv. apply esize_stride_ok; auto. apply fixed_counts_nonneg; auto. }
+  destruct (mkvec_rep L Hwf cap budget fixed aid junk bid tbid Hcap Hst) as (R0 & Hc0 & Hf0).
+  cbv zeta in *.
+  destruct (vrun_rep_nt L Hwf junk h _ {| s_cap := cap; s_elems := [] |} R0 Hc0) as (R & Hc); auto.
+Qed.
+
+Theorem tight_every_history_nt : forall L cap budget fixed aid junk bid tbid h,
+  wf_plist L = true -> 0 <= cap -> Forall (fun c => 0 <= c) fixed ->
+  let v0 := fst (mkvec L cap budget fixed aid junk bid tbid) in
+  let s0 := {| s_cap := cap; s_elems := [] |} in
+  shist_valid L (fixed_counts L fixed) s0 h -> nt_hist_ok L s0 h ->
+  let v := vrun L junk v0 h in
+  let l := s_elems (srun s0 h) in
+  (forall i, (i < length l)%nat -> eaddr L v (Z.of_nat i) = first_align L (prev_end L v l i)) /\
+  (dend L v = prev_end L v l (length l) \/ dend L v = first_align L (prev_end L v l (length l))).
+Proof.
+  intros L cap budget fixed aid junk bid tbid h Hwf Hcap Hfx. cbv zeta. intros Hv Hn.
+  apply rep_positions_tight; auto. apply rep_every_history_nt; auto.
+Qed.
